@@ -23,6 +23,9 @@ type checkResult struct {
 	functions  []string
 	trustedFns []string
 	standins   []standinResult
+	// interface-method contracts checked against the contracts of their implementations (refine.go)
+	refinements []string
+	refSkipped  int
 }
 
 func hasProp(ps []string, p string) bool {
@@ -95,6 +98,25 @@ func (w *World) generate(p string) *checkResult {
 			continue
 		}
 		res.functions = append(res.functions, fname)
+		for _, o := range vc.obls {
+			if o.Kind == "cover" || hasProp(o.Props, p) {
+				res.obls = append(res.obls, o)
+			}
+		}
+	}
+	for _, rp := range w.refinementPairs() {
+		if !contractServes(rp.ci, p) {
+			continue
+		}
+		vc, err := w.verifyRefinement(rp)
+		if err != nil {
+			nm := "refine:" + relName(rp.implKey, rp.ct.Pkg)
+			o := &Obligation{Name: nm + "#bind", Kind: "bind", Func: nm, Props: []string{p}, Status: "generror", Clause: "interface contract and implementation contract no longer fit: " + err.Error(), Pos: fmt.Sprintf("%s:%d", rp.ci.File, rp.ci.Line)}
+			res.obls = append(res.obls, o)
+			continue
+		}
+		res.refinements = append(res.refinements, vc.fnName)
+		res.refSkipped += len(vc.skipped)
 		for _, o := range vc.obls {
 			if o.Kind == "cover" || hasProp(o.Props, p) {
 				res.obls = append(res.obls, o)
@@ -470,7 +492,9 @@ func runCheck(repo, verif, prop, tier string) int {
 		}
 	}
 	cov := map[string]any{
-		"assumed_contract_audit":     auditEv,
+		"assumed_contract_audit": auditEv,
+		"interface_refinement": map[string]any{"pairs": res.refinements, "clauses_not_comparable": res.refSkipped,
+			"note": "postconditions of interface-method contracts that do not speak about observation ghosts are checked against the contract of each implementing method; the others, and all frames, stay trusted"},
 		"obligations":                nObl,
 		"discharged":                 nDis,
 		"checker_cmd":                fmt.Sprintf("/verif/bin/check %s %s  (govc: go/ssa of /repo -> SMT-LIB; z3-new 5.1.0, cvc5 1.0.3, z3 4.8.12)", prop, tier),
